@@ -84,10 +84,23 @@ def build(cs, valid_only=False):
         if n_efi >= 2 and rng.random() < 0.7:
             hy['mac'] = True
     pre_hybrid = len(h.ops)
+    # hybridisation directly after a consistency point (nothing else marks the layout dirty), or
+    # of an image that was mastered before and opened again
+    x = rng.random()
+    marker = None
+    if x < 0.15:
+        h.apply({'op': 'force_consistency'})
+    elif x < 0.25:
+        h.apply({'op': 'q_write'})
+    elif x < 0.45:
+        marker = len(h.ops)
     h.apply(hy)
     # edits that move the boot files
-    h.extend(rng.choice([0, 0, 3, 8]))
+    if marker is None:
+        h.extend(rng.choice([0, 0, 3, 8]))
     ops = list(h.ops)
+    if marker is not None:
+        ops.insert(marker, {'op': 'reopen'})
     h.sess.close()
     return cfg, ops
 
@@ -96,6 +109,9 @@ def check(cfg, ops, seed, counters):
     from harness.props import c01
     vio = []
     sess = driver.replay(cfg, ops, seed)
+    if getattr(sess, 'reopen_failed', None):
+        sess.close()
+        return [{'key': 'reopen-before-hybrid-fails', 'detail': sess.reopen_failed}]
     m = sess.model
     n_efi_sections = sum(1 for e in (m.boot or {'entries': []})['entries'][1:] if e['efi'])
     if m.hybrid is not None:
